@@ -23,7 +23,8 @@ SHARD_TIMEOUT = {'quick': 600, 'thorough': 3600}
 
 SIMS = [('JACCARD', True), ('COSINE', True), ('DICE', True), ('OVERLAP_COEFFICIENT', True),
         ('OVERLAP', True), ('user_bound', True), ('user_len_diff', True), ('EDIT_DISTANCE', False),
-        ('user_len_diff', False)]
+        ('user_len_diff', False), ('user_neg', True), ('user_neg', False), ('user_signed', True),
+        ('user_nw', False)]
 OPS6 = ['>=', '>', '<=', '<', '=', '!=']
 
 ANCHORS = {
@@ -163,7 +164,7 @@ def run_case(case, rec, ssj=None, counter=None):
     if scores and rng.random() < 0.7:
         call['threshold'] = rng.choice(scores)
     else:
-        call['threshold'] = rng.choice([0.3, 0.5, 1, 2, 0.75, 1.0])
+        call['threshold'] = rng.choice([0.3, 0.5, 1, 2, 0.75, 1.0, 0, 0.0, -1, -0.5, -3])
     if case.get('backend'):
         call['backend'] = case['backend']
         call['n_jobs'] = rng.choice([2, 3])
